@@ -671,8 +671,17 @@ def _adjacent(ck, p, byk):
         n += 1
         if not guards:
             # the pass merges vector neighbours unconditionally (condense_newlines): nothing lies between two
-            # neighbouring tokens, so there is no third token to jump over - no adjacency belief to be consistent with
+            # neighbouring tokens, so there is no third token to jump over - provided the token that is
+            # swallowed really is the vector neighbour of the last one examined: the index must advance by
+            # exactly one per examined token of a run
             ck.proved(rule, key, f.span, "%d extension(s); the pass makes no adjacency test at all (vector neighbours are merged unconditionally)" % len(exts))
+            st = _stride(f, pv, exts)
+            if st is None:
+                ck.undecided(rule, key + ":stride", f.span, "the index that walks a run of merged tokens was not identified")
+            elif st[0] > 1:
+                ck.refuted(rule, key + ":stride", f.loc(st[1]), "within a run the index `%s` advances %d times between two examined tokens (once after the merge, once at the top of the loop): every other token is never looked at, and since the pass tests no adjacency the kept token's span is extended right over it - a word between two line breaks ends up inside the merged newline token (overlap)" % (_nm(names_of(f), st[2]), st[0]))
+            else:
+                ck.proved(rule, key + ":stride", f.span, "the run index advances exactly once per examined token")
             continue
         bad = [(k_, o_, ln) for (k_, o_, ln) in exts if not any(g[0] == k_ and g[1] == o_ for g in guards)]
         names = f.debug_names()
@@ -683,6 +692,75 @@ def _adjacent(ck, p, byk):
         else:
             ck.proved(rule, key, f.span, "%d extension(s), each guarded by the adjacency test on the same two tokens" % len(exts))
     ck.floor(rule, "cursor-loop condensing passes with a span extension", n, 1)
+
+
+def names_of(f):
+    return f.debug_names()
+
+
+def _stride(f, pv, exts):
+    """(max number of `i += 1` on a cycle of the innermost loop through an extension, line, index local)
+    for the index local that addresses the swallowed token; None if not identified."""
+    from ..util import const_int
+    idx = {e[1][2] for e in exts if isinstance(e[1], tuple) and e[1][0] == "elem"}
+    if len(idx) != 1:
+        return None
+    il = next(iter(idx))
+    incs = {}
+    for bi, b in enumerate(f.blocks):
+        if b["cleanup"]:
+            continue
+        for sx in b["s"]:
+            if sx["k"] == "assign" and sx["lhs"] == [il] and sx["rv"]["k"] == "use" and place_of(sx["rv"]["op"]):
+                pl = place_of(sx["rv"]["op"])
+                if len(pl) == 2 and isinstance(pl[1], list) and pl[1][0] == "f":
+                    ds = [x for (b2, si, k, x) in pv.defs.get(pl[0], []) if k == "assign"]
+                    if len(ds) == 1 and ds[0]["rv"]["k"] == "bin" and ds[0]["rv"]["op"] in ("AddWithOverflow", "Add") and place_of(ds[0]["rv"]["a"]) == [il] and const_int(ds[0]["rv"]["b"]) == 1:
+                        incs.setdefault(bi, []).append(sx["ln"])
+            elif sx["k"] == "assign" and sx["lhs"] == [il] and sx["rv"]["k"] == "bin" and sx["rv"]["op"] == "Add" and place_of(sx["rv"]["a"]) == [il] and const_int(sx["rv"]["b"]) == 1:
+                incs.setdefault(bi, []).append(sx["ln"])
+    if not incs:
+        return None
+    cfg = Cfg(f)
+    loops = cfg.natural_loops()
+    ext_blocks = set()
+    for bi, b in enumerate(f.blocks):
+        for sx in b["s"]:
+            if sx["k"] == "assign" and any(sx["ln"] == e[2] for e in exts) and len(sx["lhs"]) > 1:
+                ext_blocks.add(bi)
+    best = None
+    for eb in ext_blocks:
+        inner = [(h, body) for h, body in loops.items() if eb in body]
+        if not inner:
+            continue
+        h, body = min(inner, key=lambda x: len(x[1]))
+        # simple cycles h -> ... -> eb -> ... -> h inside the body
+        count = [0]
+
+        def dfs(b, seen, n, through):
+            if count[0] > 20000:
+                return
+            count[0] += 1
+            n2 = n + len(incs.get(b, []))
+            t2 = through or b == eb
+            for sx in cfg.succ[b]:
+                if sx == h:
+                    if t2:
+                        nonlocal_best(n2, b)
+                    continue
+                if sx in body and sx not in seen:
+                    dfs(sx, seen | {sx}, n2, t2)
+        res = []
+
+        def nonlocal_best(nv, b):
+            res.append(nv)
+        dfs(h, {h}, 0, False)
+        if res:
+            m = max(res)
+            ln = max((l for b2, ls in incs.items() if b2 in body for l in ls), default=0)
+            if best is None or m > best[0]:
+                best = (m, ln, il)
+    return best
 
 
 def _nm(names, x):
